@@ -41,6 +41,15 @@ def _eff(shadow, key):
     return s["constants"], {k: (json.loads(v) if isinstance(v, str) else v) for k, v in s["points"].items()}
 
 
+def _with_base(base, settings):
+    """effective registration settings: the manager's base values unless the scenario overrides them"""
+    c = dict(base.get("constants", {}))
+    c.update(settings.get("constants", {}))
+    p = dict(base.get("points", {}))
+    p.update(settings.get("points", {}))
+    return c, p
+
+
 def check_case(case):
     from BPTK_Py import BptkServer, bptk
 
@@ -113,8 +122,14 @@ def check_case(case):
         return compare("base", None, got, opno, op)
 
     try:
+        bases = case.get("bases", {})
         for m in MANAGERS:
-            b.register_scenario_manager({m: {"model": base_model}})
+            mgr = {"model": base_model}
+            if bases.get(m, {}).get("constants"):
+                mgr["base_constants"] = json.loads(json.dumps(bases[m]["constants"]))
+            if bases.get(m, {}).get("points"):
+                mgr["base_points"] = json.loads(json.dumps(bases[m]["points"]))
+            b.register_scenario_manager({m: mgr})
         for opno, op in enumerate(case["ops"]):
             kind = op[0]
             try:
@@ -124,7 +139,8 @@ def check_case(case):
                     if key in shadow:
                         continue
                     b.register_scenarios({s: json.loads(json.dumps(settings))}, m)
-                    shadow[key] = {"constants": dict(settings.get("constants", {})), "points": dict(settings.get("points", {})), "dirty": False}
+                    ec, ep = _with_base(bases.get(m, {}), settings)
+                    shadow[key] = {"constants": ec, "points": ep, "dirty": False}
                     if settings:
                         writes.append(key)
                         lastwrite[key] = "register"
@@ -132,6 +148,33 @@ def check_case(case):
                 if kind == "base":
                     if not read_base(opno, op):
                         break
+                    continue
+                if kind == "msession":
+                    _, mgrs, scns, begin, steps = op
+                    keys = [(m_, s_) for m_ in mgrs for s_ in scns if (m_, s_) in shadow]
+                    if not keys:
+                        continue
+                    b.begin_session(scenarios=list(scns), scenario_managers=list(mgrs), equations=names, settings=json.loads(json.dumps(begin)),
+                                    starttime=grid[0], dt=float(abstract["dt"]))
+                    for k_ in keys:
+                        st0 = begin.get(k_[0], {}).get(k_[1])
+                        if st0:
+                            shadow[k_]["constants"].update(st0.get("constants", {}))
+                            shadow[k_]["points"].update(st0.get("points", {}))
+                            writes.append(k_)
+                            lastwrite[k_] = "begin-session-settings(multi-manager)"
+                    for st_ in steps:
+                        if st_:
+                            b.run_step(settings=json.loads(json.dumps(st_)))
+                            for m_, d_ in st_.items():
+                                for s_ in d_:
+                                    if (m_, s_) in shadow:
+                                        shadow[(m_, s_)]["dirty"] = True
+                                        writes.append((m_, s_))
+                                        lastwrite[(m_, s_)] = "step-settings(multi-manager)"
+                        else:
+                            b.run_step()
+                    b.end_session()
                     continue
                 key = (op[1], op[2])
                 if key not in shadow:
@@ -223,12 +266,13 @@ def case_strategy():
             return out
         ms = st.sampled_from(MANAGERS)
         ss = st.sampled_from(SCENARIOS)
+        bases = {m: (settings() if draw(st.booleans()) else {}) for m in MANAGERS}
         ops = []
         # always start with two scenarios
         ops.append(["register", "smA", "sc0", settings()])
         ops.append(["register", draw(ms), "sc1", settings()])
         for _ in range(draw(st.integers(2, 10))):
-            k = draw(st.sampled_from(["register", "run", "run", "session", "rest_run", "edit", "reset", "base", "session"]))
+            k = draw(st.sampled_from(["register", "run", "run", "session", "rest_run", "edit", "reset", "base", "session", "msession", "msession"]))
             if k == "register":
                 ops.append(["register", draw(ms), draw(ss), settings()])
             elif k == "run":
@@ -242,13 +286,25 @@ def case_strategy():
                 what = "constants" if "constants" in s_ else "points"
                 name, value = list(s_[what].items())[0]
                 ops.append(["edit", draw(ms), draw(ss), what, name, value])
+            elif k == "msession":
+                mgrs = draw(st.sampled_from([["smA", "smB"], ["smA", "smB"], ["smB"], ["smA"]]))
+                scns = draw(st.lists(ss, min_size=1, max_size=3, unique=True))
+                begin = {}
+                for m_ in mgrs:
+                    for s_ in scns:
+                        if draw(st.integers(0, 2)) == 0:
+                            begin.setdefault(m_, {})[s_] = settings(False)
+                steps = []
+                for _i in range(draw(st.integers(1, 3))):
+                    steps.append({draw(st.sampled_from(mgrs)): {draw(st.sampled_from(scns)): settings(False)}} if draw(st.integers(0, 3)) == 0 else {})
+                ops.append(["msession", mgrs, scns, begin, steps])
             elif k == "rest_run":
                 ops.append(["rest_run", draw(ms), draw(ss), settings(False)])
             else:
                 nsteps = draw(st.integers(1, 4))
                 steps = [(settings(False) if draw(st.integers(0, 2)) == 0 else {}) for _ in range(nsteps)]
                 ops.append(["session", draw(ms), draw(ss), settings(), steps])
-        return {"model": model, "ops": ops}
+        return {"model": model, "ops": ops, "bases": bases}
     return build()
 
 
